@@ -64,6 +64,19 @@ type env struct {
 	clients chan *centrifuge.Client
 	logMu   sync.Mutex
 	panics  []string // "http: panic serving" reports of the http.Server
+	served  sync.Map // trial name (query parameter t) -> chan struct{} closed when the WebSocket handler finished the connection
+}
+
+// connDone is called at the yield point "websocket.connDone": the WebSocket handler has finished the
+// connection whose request carried the query t=<trial name>. The handler's last act before that point
+// is its update of the outgoing-close metric, so from then on a missing update is a fact, not a matter
+// of waiting longer.
+func (e *env) connDone(rawQuery string) {
+	if t := strings.TrimPrefix(rawQuery, "t="); t != rawQuery {
+		if ch, ok := e.served.LoadAndDelete(t); ok {
+			close(ch.(chan struct{}))
+		}
+	}
 }
 
 func (e *env) Write(p []byte) (int, error) {
@@ -120,6 +133,11 @@ func newEnv() (*env, error) {
 		return nil, err
 	}
 	e.node = node
+	kit.SetHook(node, func(point string, _ *centrifuge.Client, ch string) {
+		if point == "websocket.connDone" {
+			e.connDone(ch)
+		}
+	})
 	mux := http.NewServeMux()
 	mux.HandleFunc("/up", func(w http.ResponseWriter, r *http.Request) {
 		cfg := e.upCfg.Load()
@@ -794,13 +812,23 @@ func diffMetric(before, after map[string]float64) map[string]float64 {
 
 // connectCentrifuge performs a valid handshake + connect command and returns the server-side client.
 func connectCentrifuge(c *kit.Case, e *env, compress bool) (*rawClient, *centrifuge.Client, bool, string) {
+	rc, cl, deflate, _, inc := connectCentrifugeTracked(c, e, compress)
+	return rc, cl, deflate, inc
+}
+
+// connectCentrifugeTracked also returns a channel that is closed when the server's handler for this
+// connection has returned.
+func connectCentrifugeTracked(c *kit.Case, e *env, compress bool) (*rawClient, *centrifuge.Client, bool, chan struct{}, string) {
 	for len(e.clients) > 0 {
 		<-e.clients
 	}
 	rc, err := e.dial()
 	if err != nil {
-		return nil, nil, false, "dial failed"
+		return nil, nil, false, nil, "dial failed"
 	}
+	name := fmt.Sprintf("t%d-%d", c.Index, trialSeq.Add(1))
+	served := make(chan struct{})
+	e.served.Store(name, served)
 	path := "/connection/websocket"
 	ext := ""
 	if compress {
@@ -808,26 +836,25 @@ func connectCentrifuge(c *kit.Case, e *env, compress bool) (*rawClient, *centrif
 		ext = "Sec-WebSocket-Extensions: permessage-deflate; client_max_window_bits\r\n"
 	}
 	key := b64(16, c.R)
-	_, _ = rc.pc.Write([]byte("GET " + path + " HTTP/1.1\r\nHost: example.test\r\nUpgrade: websocket\r\nConnection: Upgrade\r\nSec-WebSocket-Version: 13\r\nSec-WebSocket-Key: " + key + "\r\n" + ext + "\r\n"))
+	_, _ = rc.pc.Write([]byte("GET " + path + "?t=" + name + " HTTP/1.1\r\nHost: example.test\r\nUpgrade: websocket\r\nConnection: Upgrade\r\nSec-WebSocket-Version: 13\r\nSec-WebSocket-Key: " + key + "\r\n" + ext + "\r\n"))
 	resp, err := http.ReadResponse(rc.br, &http.Request{Method: "GET"})
 	if err != nil || resp.StatusCode != 101 {
 		rc.pc.Close()
-		return nil, nil, false, fmt.Sprintf("baseline handshake failed: %v", err)
+		return nil, nil, false, nil, fmt.Sprintf("baseline handshake failed: %v", err)
 	}
 	deflate := strings.Contains(resp.Header.Get("Sec-Websocket-Extensions"), "permessage-deflate")
 	// the connection is recognised by a unique name (OnConnect of an earlier trial's connection may still be in flight)
-	name := fmt.Sprintf("t%d-%d", c.Index, trialSeq.Add(1))
 	rc.send(wsmodel.Frame{Fin: true, Opcode: wsmodel.OpText, Payload: []byte(`{"id":1,"connect":{"name":"` + name + `"}}`)}, c.R)
 	timeout := time.After(bound)
 	for {
 		select {
 		case cl := <-e.clients:
 			if cl.UserID() == "u-"+name {
-				return rc, cl, deflate, ""
+				return rc, cl, deflate, served, ""
 			}
 		case <-timeout:
 			rc.pc.Close()
-			return nil, nil, false, "client did not connect within the bound"
+			return nil, nil, false, nil, "client did not connect within the bound"
 		}
 	}
 }
@@ -836,7 +863,7 @@ var trialSeq atomic.Int64
 
 func disconnectTrial(c *kit.Case, e *env, r *kit.Rand) (*verdict, string, map[string]any) {
 	compress := r.Chance(1, 3)
-	rc, cl, _, inc := connectCentrifuge(c, e, compress)
+	rc, cl, _, served, inc := connectCentrifugeTracked(c, e, compress)
 	if inc != "" {
 		return nil, inc, nil
 	}
@@ -908,6 +935,15 @@ func disconnectTrial(c *kit.Case, e *env, r *kit.Rand) (*verdict, string, map[st
 			}
 			c.Count("recorded_outgoing_close_code_verified", 1)
 			return nil, "", det
+		}
+		select {
+		case <-served:
+			// the handler has returned: its last act, the metric update, has happened or never will
+			if d := diffMetric(before, e.closeMetric()); len(d) == 0 {
+				return &verdict{"recorded-close-code-missing", fmt.Sprintf("the server sent the first close frame (code %d), the peer echoed it and the handler returned, but no outgoing close code was recorded", gotCode)}, "", det
+			}
+			continue
+		default:
 		}
 		if time.Now().After(deadline) {
 			return nil, "outgoing close code was not recorded within the bound", det
